@@ -2,7 +2,11 @@
 claim('C14',
       'Bounded symbolic execution (go/ssa -> SMT) of the real TemporaryEvaluate against a byte-wise exact-membership oracle: for every '
       'groups string and every ADMINGROUPS string up to the stated length over an alphabet containing both separators, z3 proves '
-      '"allowed iff some non-empty caller group equals some configured admin group"; SAT models are replayed natively.',
+      '"allowed iff some non-empty caller group equals some configured admin group"; SAT models are replayed natively. At the handlers: the REAL '
+      'Server.Set with the identity claims in the request context (every subset of name / preferred_username / email / groups; symbolic groups and '
+      'ADMINGROUPS): served iff no claim is present or the caller is an exact member, a refused Set creates no transaction; the REAL Server.Get '
+      'listing all targets (target "*" on the prefix or on a path) with / without authorization (OIDC_SERVER_URL), symbolic groups: an '
+      'identified caller is shown exactly the targets its groups name, every target if it holds the ROC-admin group.',
       'Bounds: string lengths and alphabet (see evidence.bounds); metadata access through the real metautils.NiceMD; os.Getenv is a '
       'harness-provided value; trusted: go/ssa, the executor, z3.',
       'SSA symbolic execution + SMT (z3), bounded strings', 'DESIGN.md 6/C14')
